@@ -429,6 +429,37 @@ theorem runTrace_noInit (ops : List Op) (s : St) : ∀ op ∈ runTrace s ops, no
       | setState st => simp [opTrace] at h
     · exact ih _ op h
 
+theorem runTrace_append (a b : List Op) (s : St) : runTrace s (a ++ b) = runTrace s a ++ runTrace (run s a) b := by
+  induction a generalizing s with
+  | nil => rfl
+  | cons op a ih => simp only [List.cons_append, runTrace, ih, List.append_assoc, run, List.foldl_cons]
+
+theorem run_append (a b : List Op) (s : St) : run s (a ++ b) = run (run s a) b := by
+  simp [run, List.foldl_append]
+
+/-- one chunk performs at most one queue operation -/
+theorem chunkTrace_short (s : St) (ch : InChunk) : chunkTrace s ch = [] ∨ ∃ op, chunkTrace s ch = [op] ∧ noInit op := by
+  have hn := chunkTrace_noInit s ch
+  cases ch with
+  | data c imm =>
+    simp only [chunkTrace] at hn ⊢
+    split
+    · left; rfl
+    · unfold dataTrace at hn ⊢
+      dsimp only at hn ⊢
+      repeat' split
+      all_goals first | (left; rfl) | (right; exact ⟨_, rfl, trivial⟩)
+  | fwd c es =>
+    simp only [chunkTrace, fwdTrace]
+    repeat' split
+    all_goals first | (left; rfl) | (right; exact ⟨_, rfl, trivial⟩)
+  | ifwd c es =>
+    simp only [chunkTrace, ifwdTrace]
+    repeat' split
+    all_goals first | (left; rfl) | (right; exact ⟨_, rfl, trivial⟩)
+  | hb info => left; rfl
+  | reset r => left; rfl
+
 /-- the queue of a fresh association is the start state of the ghost-instrumented runs -/
 theorem init_pq (maxBuf maxEntries : BitVec 32) (il f g : Bool) (am : Int) (t : TSN) :
     (init maxBuf maxEntries il f g am t).pq = (RecvQ.start (getMaxTSNOffset maxBuf) (t - 1)).q := rfl
